@@ -36,7 +36,7 @@ PROP = {
              "8 IDs x 540 sources, and floods whose >= 4397 entries over >= 600 sources are ALL one chunk short of "
              "completion (1 of 2, 2 of 3, 7 of 8, mixed counts), with the table census after every frame (full census "
              "every 32nd frame and at every inspection; in between: overall bound, sum(perSource)==len(table), exact "
-             "census of the source just served); ID walks with strides 1/3/127/129/255 over several trips round the "
+             "census of the source just served); directed self-eviction: the table is filled to exactly 4096 with the oldest entries belonging to chosen sources (holding 1, 2, 3 or 7 entries each, every entry created at its own instant so that the oldest is unique), fillers from >= 512 other sources, then each chosen source sends a chunk of a NEW ID so that the entry evicted is its own oldest one - full census after each such step, after expiry, and two interleaved messages per source afterwards; ID walks with strides 1/3/127/129/255 over several trips round the "
              "ID space; chunk arrival at ages TTL-1ns/TTL/TTL+GC-1ms/TTL+GC/+1ns relative to sweeper ticks; pin: an "
              "incomplete message keeps receiving duplicates of chunks it already has (sometimes a further new chunk) at "
              "intervals below the TTL while other sources' traffic flows, over 4 cycles (> 4 TTLs); it must be gone "
@@ -55,6 +55,11 @@ PROP = {
         "absent from the table once more than TTL + one GC period (12 s) has passed since its first chunk",
         "a second delivery is accepted only when every chunk of a message arrived a second time after its delivery",
         "Salamander (C13's subject) is used as the transport of forged frames and to open captured datagrams",
+        "determinism: every script is a function of VERIF_SEED: the chunk count of each sender message used in a script "
+        "is drawn by the harness PRNG (the write is repeated, from the same ID counter value, until the sender draws it), "
+        "flood entries are created at pairwise different virtual instants so eviction victims do not depend on map order; "
+        "what still varies between identical runs is only how often the sender had to be re-drawn (counters ev_writes, "
+        "ev_wire_datagrams, sender_redraws), the padding bytes/sizes, and goroutine scheduling in the race part",
         "sender randomness (chunk count, padding) comes from crypto/rand and is sampled, not enumerated; replay re-runs "
         "the same script with fresh sender randomness",
     ],
